@@ -147,14 +147,26 @@ pub fn run(o: &Opts) -> Report {
         let mode = rng.below(6);
         let (collide, odd) = (mode <= 1, mode == 2);
         let mut idx = 0; let mut used = vec![];
-        let tree = gen_gn(&mut rng, 0, &mut idx, collide, odd, &mut used);
+        let mut tree = gen_gn(&mut rng, 0, &mut idx, collide, odd, &mut used);
+        if collide && rng.chance(1, 2) {
+            // the shape whose mangled paths coincide: sibling `a-b` next to a nested `a` -> `b`
+            let leaf = |name: &str, i: usize| GN { name: name.into(), aliases: vec![], args: vec![GA { id: format!("carg{i}"), short: None, long: Some(format!("col{i}x-long")), vshorts: vec![], vlongs: vec![], takes: false, positional: false, pvs: vec![], hint: 0 }], subs: vec![] };
+            let (x, y) = *rng.pick(&[("a", "b"), ("b", "a"), ("a-b", "a")]);
+            let mut nested = leaf(x, 1); nested.subs.push(leaf(y, 2));
+            tree.subs.retain(|s| s.name != x && s.name != format!("{x}-{y}") && !s.aliases.contains(&x.to_string()) && !s.aliases.contains(&format!("{x}-{y}")));
+            tree.subs.push(leaf(&format!("{x}-{y}"), 3)); tree.subs.push(nested);
+        }
         let key0 = format!("tree#{ci} {tree:?}");
         rep.count(if collide { "trees_collision_pool" } else if odd { "trees_odd_names" } else { "trees_plain" });
         let mut scripts = std::collections::BTreeMap::new();
         for shell in ["bash", "zsh", "fish", "pwsh", "elvish", "nu"] {
             let r = std::panic::catch_unwind(|| (gen_script(shell, &tree), gen_script(shell, &tree)));
             match r {
-                Err(_) => { rep.oracle_fail(&format!("generator-panics:{shell}{}", if odd { ":name-with-double-underscore-or-edge-underscore" } else { "" }), &format!("{key0} shell={shell}"), "generate panicked"); }
+                Err(_) => {
+                    // listed finding only for bash and only when a subcommand name of THIS tree interferes with the `__` path separator
+                    fn odd_name(n: &GN) -> bool { n.subs.iter().any(|s| s.name.contains("__") || s.name.starts_with('_') || s.name.ends_with('_') || s.aliases.iter().any(|a| a.contains("__")) || odd_name(s)) }
+                    let suffix = if shell == "bash" && odd_name(&tree) { ":name-with-double-underscore-or-edge-underscore" } else { "" };
+                    rep.oracle_fail(&format!("generator-panics:{shell}{suffix}"), &format!("{key0} shell={shell}"), "generate panicked"); }
                 Ok((a, b)) => { if a != b { rep.oracle_fail("generator-nondeterministic", &format!("{key0} shell={shell}"), "two runs differ"); } scripts.insert(shell, a); }
             }
             rep.count(&format!("scripts_{shell}"));
@@ -169,11 +181,12 @@ pub fn run(o: &Opts) -> Report {
                     for a in &node.args {
                         let mut toks: Vec<String> = vec![];
                         if let Some(l) = &a.long { toks.push(l.clone()); toks.extend(a.vlongs.iter().cloned()); }
-                        for (v, h) in &a.pvs { if !*h && !(a.positional && *shell == "fish") { toks.push(v.clone()); } }
-                        for t in toks { if !script.contains(&t) { rep.oracle_fail(&format!("{shell}-omits:option-or-value"), &format!("{key0} shell={shell}"), &format!("{t:?} of level {path:?} not mentioned")); } }
+                        for t in toks { if !script.contains(&t) { rep.oracle_fail(&format!("{shell}-omits:option"), &format!("{key0} shell={shell}"), &format!("{t:?} of level {path:?} not mentioned")); } }
+                        for (v, h) in &a.pvs { if !*h && !script.contains(v.as_str()) {
+                            rep.oracle_fail(&format!("{shell}-omits:possible-value{}", if a.positional { "-of-positional" } else { "" }), &format!("{key0} shell={shell}"), &format!("possible value {v:?} of {} at level {path:?} not mentioned", a.id)); } }
                         if let Some(s) = a.short { for x in a.vshorts.iter().chain([s].iter()) {
                             let pat: Vec<String> = match *shell { "fish" => vec![format!("-s {x}")], "nu" => vec![format!("(-{x})"), format!(" -{x}")], _ => vec![format!("-{x}")] };
-                            if !pat.iter().any(|p| script.contains(p.as_str())) { rep.oracle_fail(&format!("{shell}-omits:option-or-value"), &format!("{key0} shell={shell}"), &format!("short -{x} of level {path:?} not mentioned")); }
+                            if !pat.iter().any(|p| script.contains(p.as_str())) { rep.oracle_fail(&format!("{shell}-omits:option"), &format!("{key0} shell={shell}"), &format!("short -{x} of level {path:?} not mentioned")); }
                         } }
                     }
                     if *shell == "fish" && depth >= 2 { continue; }
@@ -256,7 +269,10 @@ pub fn run(o: &Opts) -> Report {
             if let Some(e) = expect {
                 got.sort(); got.dedup();
                 if &got != e {
-                    let class = if collide { "bash-offers-wrong-level:mangled-path-collision" } else { "bash-offers-wrong-level" };
+                    // listed finding only when two distinct subcommand paths of THIS tree mangle to the same function name
+                    let mangled: Vec<String> = all.iter().map(|(p, _)| p.iter().map(|x| x.replace('-', "__")).collect::<Vec<_>>().join("__")).collect();
+                    let has_collision = mangled.iter().enumerate().any(|(i, m)| mangled.iter().skip(i + 1).any(|m2| m == m2));
+                    let class = if has_collision { "bash-offers-wrong-level:mangled-path-collision" } else { "bash-offers-wrong-level" };
                     rep.oracle_fail(class, &key, &format!("COMPREPLY {got:?} but the level addressed by the preceding words has {e:?}"));
                 }
             }
@@ -268,7 +284,7 @@ pub fn run(o: &Opts) -> Report {
         for (((req, m), i), k) in reqs.iter().zip(model.iter()).zip(impls.iter()).zip(keys.iter()) {
             let mm = if m == "NOTHING" { "WORDS".to_string() } else { m.trim_end().to_string() };
             if req.starts_with("bashcases") && i == "PANIC" { if !m.ends_with("PANIC") { rep.disagree("bashcases", k, m, "generator panicked"); } continue; }
-            if &mm != i && !(m == "VALUES") { rep.disagree(req.split(' ').next().unwrap(), k, m, i); }
+            if mm.trim() != i.trim() && !(m == "VALUES") { rep.disagree(req.split(' ').next().unwrap(), k, m, i); }
         }
     }
     rep
